@@ -49,9 +49,9 @@ use datafusion_common::{
 };
 use datafusion_expr::expr::{OUTER_REFERENCE_COLUMN_PREFIX, UNNEST_COLUMN_PREFIX};
 use datafusion_expr::{
-    Aggregate, BinaryExpr, Distinct, Expr, FetchType, JoinConstraint, JoinType,
+    Aggregate, BinaryExpr, Distinct, Expr, FetchType, JoinConstraint, JoinType, Limit,
     LogicalPlan, LogicalPlanBuilder, Operator, Projection, SkipType, Sort, SortExpr,
-    TableScan, Unnest, UserDefinedLogicalNode, Window, expr::Alias,
+    TableScan, Unnest, UserDefinedLogicalNode, Window, expr::Alias, lit,
 };
 use sqlparser::ast::{self, Ident, OrderByKind, SetExpr, TableAliasColumnDef};
 use std::{sync::Arc, vec};
@@ -1117,6 +1117,27 @@ impl Unparser<'_> {
                         false,
                         vec![],
                     );
+                }
+                // `Sort { fetch }` is logically `Limit(fetch) -> Sort`. Directly
+                // below this Limit both end up in the same SELECT, where the Sort
+                // would replace this LIMIT by its own fetch: merge the two limits
+                // first, with the same rule as the optimizer.
+                if let LogicalPlan::Sort(sort) = limit.input.as_ref()
+                    && let Some(sort_fetch) = sort.fetch
+                    && let (SkipType::Literal(skip), FetchType::Literal(fetch)) =
+                        (limit.get_skip_type()?, limit.get_fetch_type()?)
+                {
+                    let (skip, fetch) = combine_limit(skip, fetch, 0, Some(sort_fetch));
+                    let merged = LogicalPlan::Limit(Limit {
+                        skip: (skip > 0).then(|| Box::new(lit(skip as i64))),
+                        fetch: fetch.map(|fetch| Box::new(lit(fetch as i64))),
+                        input: Arc::new(LogicalPlan::Sort(Sort {
+                            fetch: None,
+                            ..sort.clone()
+                        })),
+                    });
+                    return self
+                        .select_to_sql_recursively(&merged, query, select, relation);
                 }
                 if let Some(fetch) = &limit.fetch {
                     let Some(query) = query.as_mut() else {
